@@ -382,11 +382,87 @@ def file_bytes_stream(ctx, res):
             res.violate("C18:include-file-bytes", "a load naming an existing, well-formed include file is not the load of the merged tree", dict(case, got=got))
 
 
+def startdir_history_stream(ctx, res):
+    """include paths resolve against the configured start directory AT THE TIME OF THE LOAD: one schema (one include field) loads the
+    documents of several sites one after the other — a relative start directory while the process changes into each site's
+    directory, a start directory below `~` while the home directory changes, the field's start directory re-pointed between loads;
+    every load merges the include file of ITS site, and a site without the file fails"""
+    import cincoconfig as cc
+    top = os.path.realpath(ctx.tmpdir())
+    n = [0]
+
+    def site(name, port, with_file=True, sub="conf.d"):
+        n[0] += 1
+        path = os.path.join(top, "%s-%d" % (name, n[0]))
+        os.makedirs(os.path.join(path, sub))
+        if with_file:
+            with open(os.path.join(path, sub, "db.json"), "w") as fp:
+                json.dump({"host": name + "-db", "port": port, "opts": {"pool": port % 10}}, fp)
+        with open(os.path.join(path, "main.json"), "w") as fp:
+            json.dump({"name": name, "db": {"include": "db.json", "host": "localhost", "opts": {"tls": 1}}}, fp)
+        return path
+
+    def expected(name, port):
+        return {"name": name, "db": {"host": name + "-db", "port": port, "opts": {"tls": 1, "pool": port % 10}}}
+
+    def values(cfg):
+        tree = cfg.to_tree()
+        tree["db"].pop("include", None)
+        return tree
+
+    def new_schema(startdir):
+        s = cc.Schema()
+        s.name = cc.StringField()
+        inc = cc.IncludeField(startdir=startdir)
+        s.db.include = inc
+        s.db.host = cc.StringField()
+        s.db.port = cc.IntField()
+        s.db.opts.pool = cc.IntField()
+        s.db.opts.tls = cc.IntField()
+        return s, inc
+    home0, cwd0 = os.environ.get("HOME"), os.getcwd()
+    for mode in ("relative-with-chdir", "tilde-with-home", "re-pointed"):
+        s, inc = new_schema("conf.d" if mode == "relative-with-chdir" else "~/conf.d" if mode == "tilde-with-home" else os.path.join(top, "nowhere"))
+        plan = [("alpha", 1111, True), ("beta", 2222, True), ("gamma", 3333, False), ("delta", 4444, True), ("alpha2", 5555, True)]
+        try:
+            for k, (name, port, with_file) in enumerate(plan):
+                path = site(name, port, with_file)
+                if mode == "relative-with-chdir":
+                    os.chdir(path)
+                elif mode == "tilde-with-home":
+                    os.environ["HOME"] = path
+                else:
+                    inc.startdir = os.path.join(path, "conf.d")
+                case = {"stream": "startdir-history", "mode": mode, "load": k, "site": name, "has_include_file": with_file}
+                res.case(stable(case), kind="startdir-history:" + mode)
+                cfg = s()
+                try:
+                    cfg.load(os.path.join(path, "main.json"), format="json")
+                    got = values(cfg)
+                except Exception as e:  # noqa
+                    got = "raised %s" % type(e).__name__
+                if with_file and got != expected(name, port):
+                    res.violate("C18:startdir-at-load", "an include was not resolved against the start directory as configured at the time of the load (an earlier load's directory "
+                                "was used, or the load failed)", dict(case, loaded=got, expected=expected(name, port)))
+                    break
+                if not with_file and not isinstance(got, str):
+                    res.violate("C18:missing-include-accepted", "a load succeeded although the include file does not exist below the start directory configured at the time of the load",
+                                dict(case, loaded=got))
+                    break
+        finally:
+            os.chdir(cwd0)
+            if home0 is None:
+                os.environ.pop("HOME", None)
+            else:
+                os.environ["HOME"] = home0
+
+
 def run(ctx):
     res = Result()
     guard(res, "C18", stream_a, ctx, res, ctx.n(2000, 60000))
     guard(res, "C18", stream_b, ctx, res, ctx.n(150, 3000))
     guard(res, "C18", file_bytes_stream, ctx, res)
+    guard(res, "C18", startdir_history_stream, ctx, res)
     return res
 
 
